@@ -163,7 +163,8 @@ EvTx(s, o, partial, res) ==
 
 \* apply_disconnect_completion: completing a DISCONNECT operation is reported as an error
 DisconnectCompletion(s, o) ==
-    IF o.kind = "disconnect"
+    IF o.kind = "disconnect" /\ s.st = "Disconnected" THEN [s |-> s, err |-> "ok"]      \* discarded: the connection is already gone
+    ELSE IF o.kind = "disconnect"
     THEN [s |-> IF s.st = "PendingDisconnect" THEN [s EXCEPT !.st = "Halted"] ELSE s, err |-> "UserInitiatedDisconnect"]
     ELSE [s |-> s, err |-> "ok"]
 
@@ -761,8 +762,9 @@ NoDupLive(s, q) == \A i, j \in 1..Len(q) : i # j /\ q[i] \in DOMAIN s.ops => q[i
 
 \* C01: every unresolved user operation sits where the engine can still resolve it
 UserOpsTrackedIn(s) == \A id \in DOMAIN s.ops : s.ops[id].user => id \in Tracked(s)
-\* C04: no live operation is queued twice (it would be transmitted twice)
-NoLiveIdTwiceIn(s) == NoDupLive(s, s.userQ) /\ NoDupLive(s, s.resubQ) /\ NoDupLive(s, s.hpQ)
+\* C04: no live operation is queued twice for (re)transmission (it would be transmitted twice).  The high priority
+\* queue is exempt: a server that repeats a PUBREC gets a PUBREL per PUBREC, which MQTT requires.
+NoLiveIdTwiceIn(s) == NoDupLive(s, s.userQ) /\ NoDupLive(s, s.resubQ)
                       /\ \A id \in DOMAIN s.ops : ~(id \in SeqToSet(s.userQ) /\ id \in SeqToSet(s.resubQ))
 
 \* C06: the allocated-id table is exactly the bound ids of live operations, injectively
@@ -792,4 +794,38 @@ WorkDue(s, t) ==
 DuePoints(s) == {s.now} \cup {x \in ({r.at : r \in s.tmos} \cup {s.pingTmo, s.nextPing, s.connackTmo}) : x # None /\ x >= s.now}
 NoStrandedWorkIn(s) ==
     \A t \in DuePoints(s) : WorkDue(s, t) => (NextServiceTime(s, s.now) # None /\ NextServiceTime(s, s.now) <= t)
+----------------------------------------------------------------------------------------------------
+\* situations worth having visited (non-vacuity of model checking; scenario coverage of recorded runs)
+
+StateWitnesses(s) ==
+    LET curOp == IF s.cur # None /\ s.cur \in DOMAIN s.ops THEN s.ops[s.cur] ELSE [kind |-> "", pubrel |-> FALSE, dup |-> FALSE, qos |-> 0]
+        has(c, name) == IF c THEN {name} ELSE {}
+    IN has(s.st = "Disconnected" /\ s.resubQ # <<>>, "offline-resubmit-queue")
+       \cup has(s.st = "Disconnected" /\ s.userQ # <<>>, "offline-user-queue")
+       \cup has(s.cur # None, "current-operation-partially-encoded")
+       \cup has(s.cur # None /\ s.pwc, "partial-with-write-pending")
+       \cup has(s.cur # None /\ ~s.pwc, "partial-with-no-write-pending")
+       \cup has(curOp.kind = "connect", "partial-connect")
+       \cup has(curOp.kind = "pub" /\ ~curOp.pubrel /\ ~curOp.dup, "partial-first-publish")
+       \cup has(curOp.kind = "pub" /\ ~curOp.pubrel /\ curOp.dup, "partial-retransmitted-publish")
+       \cup has(curOp.kind = "pub" /\ curOp.pubrel /\ s.cur \in Range(s.pendPub), "partial-pubrel-same-connection")
+       \cup has(curOp.kind = "pub" /\ curOp.pubrel /\ s.cur \notin Range(s.pendPub), "partial-pubrel-resumed")
+       \cup has(curOp.kind \in {"sub", "unsub"}, "partial-subscribe")
+       \cup has(curOp.kind \in {"puback", "pubrec", "pubcomp"}, "partial-ack")
+       \cup has(curOp.kind = "disconnect", "partial-disconnect")
+       \cup has(s.cur # None /\ s.cur \notin DOMAIN s.ops, "current-operation-gone")
+       \cup has(s.st = "Connected" /\ s.slow > 0, "slow-start-active")
+       \cup has(s.st = "Connected" /\ s.settings.known /\ Cardinality(DOMAIN s.pendPub) >= s.settings.rm, "at-receive-maximum")
+       \cup has(DOMAIN s.alloc # {} /\ \E p \in DOMAIN s.alloc : p >= s.nextPid, "packet-id-cursor-behind-live-id")
+       \cup has(\E i \in 1..Len(s.hpQ) : s.hpQ[i] \in DOMAIN s.ops /\ s.ops[s.hpQ[i]].pubrel, "pubrel-queued")
+       \cup has(\E id \in QueueIds(s) : id \notin DOMAIN s.ops, "stale-id-in-queue")
+       \cup has(s.tmos # {}, "ack-timeout-armed")
+       \cup has(s.pingTmo # None, "ping-outstanding")
+       \cup has(s.st = "PendingDisconnect", "pending-disconnect")
+       \cup has(s.st = "Halted", "halted")
+       \cup has(s.qos2In # {}, "inbound-qos2-held")
+       \cup has(DOMAIN s.outAl.map # {}, "outbound-alias-bound")
+       \cup has(DOMAIN s.inAl # {}, "inbound-alias-bound")
+       \cup has(Cardinality(DOMAIN s.pendPub) >= 2, "two-publishes-in-flight")
+       \cup has(\E id \in DOMAIN s.ops : s.ops[id].intr >= 1, "interrupted-operation")
 =============================================================================
